@@ -32,6 +32,7 @@ EVENT_ACTIONS = [
     ("node-folder-create", "docs"), ("host-nic-disable", "database_server"), ("network-port-disable", None),
     ("node-application-close", "client_1"), ("node-service-restart", "database_server"),
     ("node-file-create", "a.txt"), ("node-application-remove", "web_server"), ("node-folder-restore", "docs"),
+    ("node-application-remove", "client_2"),  # removes what the install action above installed at run time
 ]
 
 
